@@ -85,10 +85,117 @@ def correspondence(ctx):
                             model=None if m == 'ERR' else [[str(e) for e in col] for col in m]))
     for l in logs:
         dis.append(dict(what='coq evaluation failed', log=l))
-    return dict(evaluations=len(cases), distinct_nontrivial=len({C.canon(c['blocks']) for c in cases}),
+    casesT, disT, statsT = correspondence_T(ctx, 48 if ctx['tier'] == 'quick' else 400)
+    return dict(evaluations=len(cases) + len(casesT), distinct_nontrivial=len({C.canon(c['blocks']) for c in cases}) + len({C.canon(c['spec']) for c in casesT}),
                 rule='generated acyclic linear models (integer coefficients, T = 1, shuffled listing): random choice of two unknowns among the inputs and two targets among the outputs; '
-                     'solve_jacobian for all remaining inputs and outputs vs the rational model (explicit 2x2 inverse + chain rule), compared to 1e-9 (the implementation uses a floating LU)',
-                samples=[{k: v for k, v in c.items()} for c in cases[:1]], disagreements=dis, stats=stats)
+                     'solve_jacobian for all remaining inputs and outputs vs the rational model (explicit 2x2 inverse + chain rule), compared to 1e-9 (the implementation uses a floating LU). '
+                     'Second stream: generated models with leads and lags (|shift| <= 2), 1-3 unknowns, horizons 3-6, shuffled listing: solve_jacobian for every exogenous input and every non-target output vs '
+                     'the executable mixed sparse/dense rational model (Model/GET.v: symbolic shift products, windowed sparse-dense products, checked Gauss-Jordan solve), compared to 1e-9; '
+                     'singular / ill-conditioned (cond > 1e6) target-unknown Jacobians are counted and skipped',
+                samples=[{k: v for k, v in c.items()} for c in cases[:1]] + [dict(spec=c['spec']) for c in casesT[:1]], disagreements=dis + disT, stats=dict(stats, horizon_T=statsT))
+
+
+HEADER_GET = ('From Coq Require Import ZArith QArith Qcanon List Arith Bool.\nFrom SSJ Require Import Model.Chain Model.GET.\nImport ListNotations.\nOpen Scope nat_scope.\n')
+
+
+def gen_get_model(rng):
+    """linear model with leads and lags: exogenous v0 (and sometimes v1), 1-3 unknowns, intermediate blocks, one target per unknown dominated by 'its' unknown"""
+    nz, nu = rng.choice([1, 1, 2]), rng.choice([1, 2, 2, 3])
+    Z = [f'v{k}' for k in range(nz)]
+    U = [f'v{k}' for k in range(nz, nz + nu)]
+    nxt = nz + nu
+    avail, blocks = Z + U, []
+    sh = lambda: rng.choice([0, 0, 0, 1, -1, 2, -2])
+    co = lambda: rng.choice([-2, -1, 1, 1, 2])
+    for b in range(rng.randint(1, 3)):
+        ins = rng.sample(avail, rng.randint(1, min(3, len(avail))))
+        outs = {}
+        for _ in range(rng.randint(1, 2)):
+            outs[f'v{nxt}'] = {i: (co(), sh()) for i in ins}
+            nxt += 1
+        blocks.append(dict(name=f'mid{b}', ins=ins, outs=outs))
+        avail = avail + list(outs)
+    Tg = []
+    for j, u in enumerate(U):
+        others = rng.sample([v for v in avail if v != u], rng.randint(1, min(3, len(avail) - 1)))
+        terms = {u: (rng.choice([7, 9, -8]), 0)}
+        terms.update({i: (co(), sh()) for i in others})
+        blocks.append(dict(name=f'tgt{j}', ins=list(terms), outs={f'v{nxt}': terms}))
+        Tg.append(f'v{nxt}')
+        nxt += 1
+    return dict(blocks=blocks, Z=Z, U=U, Tg=Tg, T=rng.randint(3, 6), N=nxt)
+
+
+idx = lambda v: int(v[1:])
+nl = lambda names: C.coq_list([idx(v) for v in names], str)
+
+
+def coq_sblk(blk, ss, T):
+    """a simple block as the model's [sblk]: the model starts from the single-block Jacobians exactly as the implementation produces them (those are C02's subject)"""
+    J = blk.jacobian(ss, list(blk.inputs), T=T)
+    ents = []
+    for o in J.outputs:
+        for i, e in J.nesteddict[o].items():
+            els = [(int(k[0]), int(k[1]), int(round(x))) for k, x in e.elements.items()]
+            assert all(abs(x - round(x)) < 1e-12 for x in e.elements.values())
+            ents.append(f'(({idx(o)}, {idx(i)}), ' + C.coq_list(els, lambda t: f'((({t[0]})%Z, ({t[1]})%Z), ({t[2]})%Z)') + ')')
+    return f'(sblk {C.coq_list([idx(o) for o in blk.outputs], str)} {C.coq_list([idx(i) for i in blk.inputs], str)} [' + '; '.join(ents) + '])'
+
+
+def frac_mat(m):
+    from fractions import Fraction
+    return np.array([[float(Fraction(int(x[0]), int(x[1]))) for x in row] for row in m])
+
+
+def correspondence_T(ctx, n):
+    """Block.solve_jacobian at horizons 3-6 with 1-3 unknowns on generated models with leads/lags vs the executable mixed sparse/dense rational model (Model/GET.v)"""
+    from sequence_jacobian import combine
+    from fractions import Fraction
+    rng = ctx['rng']
+    specs = [gen_get_model(rng) for _ in range(n)]
+    mod = M.write_linear_models(f'get_{ctx["seed"]}_{ctx["tier"]}', [sp['blocks'] for sp in specs])
+    cases, exprs = [], []
+    for mi, sp in enumerate(specs):
+        objs = [getattr(mod, f'm{mi}_{b["name"]}') for b in sp['blocks']]
+        rng.shuffle(objs)
+        model = combine(objs, name=f'get{mi}')
+        ss = model.steady_state({e: 1.0 for e in model.inputs})
+        T = sp['T']
+        req = sp['U'] + [o for b in sp['blocks'] for o in b['outs'] if o not in sp['Tg']]
+        cb = [coq_sblk(blk, ss, T) for blk in model.blocks]
+        exprs.append(f'run_geT ({T})%Z {sp["N"]} [' + '; '.join(cb) + f'] {nl(sp["U"])} {nl(sp["Tg"])} {nl(sp["Z"])} {nl(req)}')
+        cases.append(dict(spec=sp, listing=[o.name for o in objs], outputs=req, model=model, ss=ss))
+    vals, logs = C.eval_in_coq('C05', HEADER_GET, exprs, chunk=max(1, len(exprs) // 16 + 1), tag='get')
+    dis, stats = [], dict(singular=0, solved=0, ill_conditioned=0, unknowns={1: 0, 2: 0, 3: 0})
+    for c, vm in zip(cases, vals):
+        model, ss, sp = c.pop('model'), c.pop('ss'), c['spec']
+        T = sp['T']
+        if vm is None or vm == 'None':
+            stats['singular'] += 1
+            continue
+        body = vm[1] if isinstance(vm, tuple) and len(vm) == 2 and vm[0] == 'Some' else vm
+        HU = model.jacobian(ss, sp['U'], sp['Tg'], T=T).pack(T)
+        if np.linalg.cond(HU) > 1e6:
+            stats['ill_conditioned'] += 1
+            continue
+        stats['solved'] += 1
+        stats['unknowns'][len(sp['U'])] += 1
+        try:
+            G = model.solve_jacobian(ss, sp['U'], sp['Tg'], sp['Z'], outputs=c['outputs'], T=T)
+            bad = []
+            for zi, z in enumerate(sp['Z']):
+                for oi, o in enumerate(c['outputs']):
+                    want = frac_mat(body[zi][oi])
+                    got = dmat(G, o, z, T)
+                    if want.shape != got.shape or np.abs(got - want).max() > 1e-9 * max(1.0, np.abs(want).max()):
+                        bad.append(dict(output=o, shock=z, impl=got.tolist(), model=want.tolist()))
+        except Exception as ex:
+            bad = [f'raised {type(ex).__name__}: {str(ex)[:150]}']
+        if bad:
+            dis.append(dict(what='Block.solve_jacobian differs from the executable mixed sparse/dense rational model at horizon T', case=c, impl=bad[:2]))
+    for l in logs:
+        dis.append(dict(what='coq evaluation failed', log=l))
+    return cases, dis, stats
 
 
 def dmat(J, o, i, T):
